@@ -13,7 +13,7 @@
 (*   ViewsOK       (size, columns, diagonal, sums, upper triangle, dot)    *)
 (* A panic of the library is an event no action explains.                  *)
 (***************************************************************************)
-EXTENDS KernelMat, TraceIO
+EXTENDS KernelMat, C06BuilderOps, TraceIO
 
 CONSTANT Devs      \* named deviations (known findings)
 
@@ -29,11 +29,23 @@ TraceInit ==
 
 NN == Len(In.pts)
 
+\* Builder histories.  An event of form "hist" was built by Kernel::params() followed by the setter calls of
+\* In.hists[o.hi]; by the builder model (C06Builder: last writer wins, other fields untouched) that history ends in
+\* the configuration of the case, so the event must satisfy the same relations as every other event of the case.
+\* That the generated history really ends in the case's configuration is checked, not assumed.
+KDefault == [meth |-> [name |-> "gauss", en |-> 1, ed |-> 2, c |-> 0, d |-> 0, dd |-> 1], kind |-> 0, nn |-> "kd"]
+KOps(h) == [q \in 1..Len(h) |-> [f |-> h[q].f, v |-> IF h[q].f = "meth" THEN h[q].m ELSE IF h[q].f = "kind" THEN h[q].k ELSE h[q].nn]]
+HistOK(o) ==
+  o.form = "hist" =>
+    /\ o.hi \in 1..Len(In.hists)
+    /\ FoldOps(KDefault, KOps(In.hists[o.hi])) = [meth |-> In.meth, kind |-> In.k, nn |-> In.hnn]
+
 \* names of the false clauses of one "kern" event
 FlagsBad(o) ==
   (IF o.dense = (In.k = 0) /\ o.isdense = o.dense THEN {} ELSE {"dense-flag"}) \cup
   (IF o.islinear = (In.meth.name = "linear") THEN {} ELSE {"is-linear"}) \cup
   (IF o.size = NN THEN {} ELSE {"size"}) \cup
+  (IF HistOK(o) THEN {} ELSE {"unsafe-history"}) \cup
   \* records shifted by an offset: only for the shift-invariant Gaussian kernel (the relation uses the un-shifted points)
   (IF In.off = 0 \/ In.meth.name = "gauss" THEN {} ELSE {"unsafe-case"}) \cup
   (IF o.dup = 0 THEN {} ELSE {"csr-entries"}) \cup
